@@ -95,6 +95,12 @@ def judge(ctx, case, res):
             ctx.undecided('harness:' + str(r[1]))
             return
         pn = c2.parse_num(r[1])
+        if pn is None and r[1] in ('calc(infinity * 1%)', 'calc(-infinity * 1%)', 'calc(NaN * 1%)', 'calc(infinity * 1deg)', 'calc(NaN * 1deg)',
+                                   'calc(infinity)', 'calc(NaN)', 'calc(-infinity)'):
+            # a non-finite channel: outside every range, whatever else is true of the colour
+            ctx.nontrivial(e)
+            ctx.violation('range|%s|not-finite|written-as=%s|%s' % (f, fam, cls), case, {'expr': 'color.%s(%s)' % (f, e), 'observed': r[1]})
+            return
         if pn is None or pn[1] != UNIT[f]:
             ctx.violation('channel-function-result-not-a-number-with-unit|%s|written-as=%s' % (f, fam), case, {'expr': 'color.%s(%s)' % (f, e), 'observed': r[1][:120]})
             return
